@@ -13,7 +13,7 @@ import (
 func init() {
 	register("C19", Meta{
 		Explanation: "Structural necessary conditions of the fee distribution on batch execution: (clamp) the relayer reimbursement that is minted is min(x, T) with T the converted sum of the batch's Fee amounts, in a recognised form (if x >= T {x = T}; if T < x …; MinInt); (remainder) the refundable remainder that is minted is T - reimbursement, the same two locals; (prorata) each user refund is remainder*fee_i/sum with sum accumulated over the batch's transactions under the same predicate (fee_i >= average) that selects the recipients, and each commission payout is C*power_i/sum(power) over one and the same signer-set value; (record) the per-transfer fee record is initialised from the transfer's own Fee and ValCommission amounts; (units) TxFeeRecord fields only ever receive external-unit values, no bank operation receives external units and no known-vs-known unit mix occurs in the distribution (UQ engine).",
-		NotDecided: []string{"the inequalities themselves (they follow from the shapes only by arithmetic the checker does not do)", "price data and the 1.5x gas factor", "rounding dust of the pro-rata split"},
+		NotDecided:  []string{"the inequalities themselves (they follow from the shapes only by arithmetic the checker does not do)", "price data and the 1.5x gas factor", "rounding dust of the pro-rata split"},
 		Assumptions: commonAssumptions,
 	}, checkC19)
 }
